@@ -65,3 +65,6 @@ func (s *Swarm) VerifFlushAll() {
 		return true
 	})
 }
+
+// VerifPayload wraps a state the way the swarm does before handing it to the gossip layer.
+func VerifPayload(st *event.State, full bool) mesh.GossipData { return &payload{state: st, full: full} }
